@@ -188,6 +188,44 @@ def build(body: Body, alpha: Alphabet, fx=None, depth=0, _prefix=(), _sinks=None
     # a spliced callee whose result is written straight into the caller's return place produces the caller's result
     retval = alpha.retval and (top or _retval)
     vsets, vtsts = _value_tests(body)
+    # a result that is built in one of several places and handed back through one local (`let r = if .. { Err(e) } else { Ok(v) }; r`,
+    # or the return place of an inlined helper): each of those places is where the variant that is returned is decided
+    ret_alias = {}
+    if retval:
+        for blk_ in body.blocks:
+            if blk_["c"]:
+                continue
+            for st_ in blk_["s"]:
+                if st_["k"] == "assign" and st_["p"] == [0] and st_["r"]["k"] == "use" and st_["r"]["o"].get("k") in ("move", "copy") and len(st_["r"]["o"]["p"]) == 1:
+                    x_ = st_["r"]["o"]["p"][0]
+
+                    def _defs(loc_):
+                        return [(b2, s2) for b2, bl2 in enumerate(body.blocks) if not bl2["c"] for s2, st2 in enumerate(bl2["s"]) if st2["k"] == "assign" and st2["p"] == [loc_]]
+                    defs_ = _defs(x_)
+                    for _hop in range(4):
+                        # handed on through single-assignment locals (the awaited result of an inlined helper)
+                        if len(defs_) == 1:
+                            r1_ = body.blocks[defs_[0][0]]["s"][defs_[0][1]]["r"]
+                            if r1_["k"] == "use" and r1_["o"].get("k") in ("move", "copy") and len(r1_["o"]["p"]) == 1 and r1_["o"]["p"][0] != 0:
+                                x_ = r1_["o"]["p"][0]
+                                defs_ = _defs(x_)
+                                continue
+                            # ... or taken out of the `Poll::Ready(result)` an inlined awaited helper ends in
+                            if r1_["k"] == "use" and r1_["o"].get("k") in ("move", "copy") and len(r1_["o"]["p"]) == 3 and str(r1_["o"]["p"][1]).endswith(":Ready") and r1_["o"]["p"][2] == "f0":
+                                pd_ = _defs(r1_["o"]["p"][0])
+                                if len(pd_) == 1:
+                                    pr_ = body.blocks[pd_[0][0]]["s"][pd_[0][1]]["r"]
+                                    if pr_.get("k") == "agg" and pr_.get("variant") == "Ready" and len(pr_.get("ops", [])) == 1 and pr_["ops"][0].get("k") in ("move", "copy") and len(pr_["ops"][0]["p"]) == 1:
+                                        x_ = pr_["ops"][0]["p"][0]
+                                        defs_ = _defs(x_)
+                                        continue
+                        break
+                    calls_ = [1 for bl2 in body.blocks if not bl2["c"] and bl2["t"].get("k") == "call" and bl2["t"].get("dest") == [x_]]
+                    vs_ = {body.blocks[b2]["s"][s2]["r"].get("variant") if body.blocks[b2]["s"][s2]["r"].get("k") == "agg" and body.blocks[b2]["s"][s2]["r"].get("ak") == "adt" else None for b2, s2 in defs_}
+                    if len(defs_) >= 2 and not calls_ and None not in vs_ and len(vs_) >= 2:
+                        for b2, s2 in defs_:
+                            ret_alias[(b2, s2)] = "retval:" + body.blocks[b2]["s"][s2]["r"]["variant"]
+                        ret_alias[("skip", id(st_))] = True
     for bi, blk in enumerate(body.blocks):
         if blk["c"]:
             continue
@@ -195,7 +233,7 @@ def build(body: Body, alpha: Alphabet, fx=None, depth=0, _prefix=(), _sinks=None
         cur = node(bi, 0)
         n.nodes.add(cur)
         # statement events
-        if retval or alpha.stmt_fn or not top or vsets:
+        if retval or alpha.stmt_fn or not top or vsets or ret_alias:
             for si, st in enumerate(blk["s"]):
                 for vl in vsets.get((bi, si), ()):
                     nxt = node(bi, pos + 1)
@@ -213,8 +251,10 @@ def build(body: Body, alpha: Alphabet, fx=None, depth=0, _prefix=(), _sinks=None
                         n.has_corr = True
                         cur = nxt
                         pos += 1
-                if retval and st["k"] == "assign" and st["p"] == [0]:
+                if retval and st["k"] == "assign" and st["p"] == [0] and not ret_alias.get(("skip", id(st))):
                     lab = retval_label(body, st["r"], alpha)
+                if retval and (bi, si) in ret_alias:
+                    lab = ret_alias[(bi, si)]
                 if lab is None and alpha.stmt_fn and st["k"] == "assign":
                     lab = alpha.stmt_fn(body, bi, si, st)
                 if lab:
@@ -751,6 +791,13 @@ def _src_labels(body, origs, alpha, depth=0):
                 lab = alpha.call_label(ct)
                 if lab:
                     out.add(lab)
+                elif fx_ is not None and depth < 3:
+                    # a crate-local synchronous helper that hands back the outcome of a labelled call
+                    # (`fn upgrade_and_stop(&self) -> Result<Addr<A>> { .. addr.stop().map(|()| addr) .. }`)
+                    h = fx_.callee_fn(ct)
+                    if h is not None and not h.get("is_async") and h["kind"] in ("fn", "assoc_fn") and "pre" in h:
+                        cb = Body(h)
+                        out |= _src_labels(cb, cb.origins([0]), alpha, depth + 1)
     return out
 
 
